@@ -139,3 +139,52 @@ def port_addressing_static_ports():
     sym.check("value_outputs_by_position", sorted(o for o, _ in outs if o < nout) == used)
     sym.check("order_out_after_value_outputs", [o for o, _ in outs if o >= nout] == ([nout] if ord_out else []))
     sym.check("validates_against_strict_schema", strict_schema_ok(doc))
+
+
+_DEF_VALIDATORS = {}
+
+
+def def_schema_ok(doc: dict, name: str) -> bool:
+    """Validate against one definition ($defs/<name>) of the published strict schema."""
+    import jsonschema
+    if name not in _DEF_VALIDATORS:
+        root = os.environ.get("VERIF_REPO", "/repo")
+        schema = json.load(open(os.path.join(root, "specification/schema/hugr_schema_strict_live.json")))
+        _DEF_VALIDATORS[name] = jsonschema.Draft202012Validator({"$ref": f"#/$defs/{name}", "$defs": schema["$defs"]})
+    return _DEF_VALIDATORS[name].is_valid(doc)
+
+
+def_schema_ok._symx_native = True
+
+
+@lemma("C03", bounds="packages of 0..2 modules from the 7 program templates and 0..2 extensions (type defs with explicit / from-params bounds, polymorphic "
+                     "and binary op defs, values); the std extensions bundled with the package",
+       outside="extensions with lowering functions")
+def packages_and_extensions_validate():
+    from hugr.package import Package
+    from vrf.harness import programs
+    nm = sym.concretize(sym.int("modules", 0, 2))
+    mods = [programs.MODULES[sym.concretize(sym.int(f"m{j}", 0, len(programs.MODULES) - 1)) if j == 0 else 3]().hugr for j in range(nm)]
+    ne = sym.concretize(sym.int("extensions", 0, 2))
+    exts = [programs.extension_small(f"e{j}", with_binary=(j == 1)) for j in range(ne)]
+    pkg = Package(mods, exts)
+    doc = json.loads(pkg._to_serial().model_dump_json())
+    sym.check("package_document_validates", def_schema_ok(doc, "Package"))
+    ok = True
+    for e in exts:
+        ok = ok and def_schema_ok(json.loads(e.to_json()), "Extension")
+    sym.check("extension_documents_validate", ok)
+    for m in mods:
+        d = json.loads(m.to_json())
+        nn = len(d["nodes"])
+        sym.check("module_index_sane", d["nodes"][0]["parent"] == 0 and all(0 <= d["nodes"][i]["parent"] < i for i in range(1, nn))
+                  and all(0 <= e[0][0] < nn and 0 <= e[1][0] < nn for e in d["edges"]))
+    if nm == 0 and ne == 0:
+        from hugr import std
+        import hugr.std.int, hugr.std.float, hugr.std.logic, hugr.std.collections.array, hugr.std.collections.list, hugr.std.collections.static_array  # noqa: F401,E401
+        allok = True
+        for e in (std.PRELUDE, hugr.std.int.INT_TYPES_EXTENSION, hugr.std.int.INT_OPS_EXTENSION, hugr.std.int.CONVERSIONS_EXTENSION,
+                  hugr.std.float.FLOAT_TYPES_EXTENSION, hugr.std.float.FLOAT_OPS_EXTENSION, hugr.std.logic.EXTENSION,
+                  hugr.std.collections.array.EXTENSION, hugr.std.collections.list.EXTENSION, hugr.std.collections.static_array.EXTENSION):
+            allok = allok and def_schema_ok(json.loads(e.to_json()), "Extension")
+        sym.check("std_extensions_validate", allok)
